@@ -1555,13 +1555,17 @@ impl Zeroconf {
 
             // Refresh cached A/AAAA records with active queriers
             let mut query_count = 0;
+            let mut new_timers = HashSet::new();
             for (hostname, _sender) in self.hostname_resolvers.iter() {
-                for (hostname, ip_addr) in
-                    self.cache.refresh_due_hostname_resolutions(hostname).iter()
-                {
+                let (refresh_due, timers) = self.cache.refresh_due_hostname_resolutions(hostname);
+                for (hostname, ip_addr) in refresh_due.iter() {
                     self.send_query(hostname, ip_address_rr_type(&ip_addr.to_ip_addr()));
                     query_count += 1;
                 }
+                new_timers.extend(timers);
+            }
+            for timer in new_timers {
+                self.add_timer(timer);
             }
 
             self.increase_counter(Counter::CacheRefreshAddr, query_count);
